@@ -27,9 +27,9 @@ def dcaseOf? : Term → Option DCase
       pure ⟨← rs.mapM routeOf?, ← ps.mapM addrOf?, ← ops.mapM dopOf?⟩
   | _ => none
 
-def hasgT (a : DAsg) : Term := tag "asg" [sym a.name, dispT a.dflt, list (a.pols.map sym)]
+def hasgT (a : DAsg) : Term := tag "asg" [sym a.name, dispT a.dflt, list (a.pols.map sym), bool a.rpki]
 def hasgOf? : Term → Option DAsg
-  | .list [.atom "asg", .atom n, d, ps] => do pure ⟨n, ← dispOf? d, ← namesOf? ps⟩
+  | .list [.atom "asg", .atom n, d, ps, r] => do pure ⟨n, ← dispOf? d, ← namesOf? ps, ← asBool? r⟩
   | _ => none
 
 def hobsT (rs : List Route) : HObs → Term
